@@ -16,6 +16,7 @@ import (
 	"path/filepath"
 	"reflect"
 	"strings"
+	"sync/atomic"
 	"testing"
 	"unicode/utf8"
 
@@ -38,16 +39,17 @@ type C07Case struct {
 	Other []BS `json:"other,omitempty"`
 }
 
-var workDirSeq int
+var workDirSeq atomic.Int64
 
-// workDir returns a fresh scratch directory under $VERIF_TMP.
+// workDir returns a fresh scratch directory under $VERIF_TMP (the name carries the process
+// id: the workers of a native fuzzing campaign are processes of their own sharing that
+// directory).
 func workDir() string {
 	base := os.Getenv("VERIF_TMP")
 	if base == "" {
 		base = filepath.Join(os.TempDir(), fmt.Sprintf("verif-work-%d", os.Getpid()))
 	}
-	workDirSeq++
-	d := filepath.Join(base, fmt.Sprintf("d%d", workDirSeq))
+	d := filepath.Join(base, fmt.Sprintf("d%d-%d", os.Getpid(), workDirSeq.Add(1)))
 	os.RemoveAll(d)
 	if err := os.MkdirAll(d, 0700); err != nil {
 		panic(err)
